@@ -58,10 +58,12 @@ def _mk_event(ev: Dict[str, Any]) -> Event:
 def run_sync(case: gen.Case, nevents: int, rng: random.Random, on_step: Callable,
              events: Optional[List[Dict[str, Any]]] = None, flip_guards=True,
              setup: Optional[Callable] = None, gtable=None, machine_kw=None,
-             pre_step: Optional[Callable] = None):
+             pre_step: Optional[Callable] = None,
+        gtables: Optional[List[Dict[str, Any]]] = None):
     """Runs the case on SyncInterpreter; `on_step(run, step)` returning True stops the run."""
     rec = Rec()
-    gt = dict(gtable) if gtable is not None else rand_gtable(rng, case)
+    gt = dict(gtables[0]) if gtables is not None else (
+        dict(gtable) if gtable is not None else rand_gtable(rng, case))
     machine = make_machine(case, rec, gt, **(machine_kw or {}))
     interp = SyncInterpreter(machine)
     interp.use(rec)
@@ -82,7 +84,10 @@ def run_sync(case: gen.Case, nevents: int, rng: random.Random, on_step: Callable
         return run
     n = len(events) if events is not None else nevents
     for i in range(n):
-        if flip_guards and gtable is None:
+        if gtables is not None:
+            gt.clear()
+            gt.update(gtables[i + 1])
+        elif flip_guards and gtable is None:
             gt.update(rand_gtable(rng, case))
         ev = events[i] if events is not None else pick_event(rng, case, config_of(interp), i)
         run["events"].append(ev)
@@ -112,10 +117,12 @@ def _safe_stop_sync(interp):
 def run_async(case: gen.Case, nevents: int, rng: random.Random, on_step: Callable,
               events: Optional[List[Dict[str, Any]]] = None, flip_guards=True,
               setup: Optional[Callable] = None, gtable=None, machine_kw=None,
-              pre_step: Optional[Callable] = None):
+              pre_step: Optional[Callable] = None,
+        gtables: Optional[List[Dict[str, Any]]] = None):
     """Runs the case on Interpreter over a virtual-time loop; observes at each drain."""
     rec = Rec()
-    gt = dict(gtable) if gtable is not None else rand_gtable(rng, case)
+    gt = dict(gtables[0]) if gtables is not None else (
+        dict(gtable) if gtable is not None else rand_gtable(rng, case))
     run: Dict[str, Any] = {"rec": rec, "gtable": gt, "engine": "async", "events": [],
                            "case": case, "undrained": 0}
 
@@ -142,7 +149,10 @@ def run_async(case: gen.Case, nevents: int, rng: random.Random, on_step: Callabl
             return
         n = len(events) if events is not None else nevents
         for i in range(n):
-            if flip_guards and gtable is None:
+            if gtables is not None:
+                gt.clear()
+                gt.update(gtables[i + 1])
+            elif flip_guards and gtable is None:
                 gt.update(rand_gtable(rng, case))
             ev = events[i] if events is not None else pick_event(rng, case, config_of(interp), i)
             run["events"].append(ev)
@@ -175,12 +185,13 @@ async def _safe_stop_async(interp):
 
 def run_pure(case: gen.Case, nevents: int, rng: random.Random, on_step: Callable,
              events: Optional[List[Dict[str, Any]]] = None, flip_guards=True, gtable=None,
-             machine_kw=None):
+             machine_kw=None, gtables: Optional[List[Dict[str, Any]]] = None):
     """Chains the pure API: initial_transition, then transition per event."""
     from xstate_statemachine import initial_transition
     from xstate_statemachine.helpers import transition as pure_transition
     rec = Rec()
-    gt = dict(gtable) if gtable is not None else rand_gtable(rng, case)
+    gt = dict(gtables[0]) if gtables is not None else (
+        dict(gtable) if gtable is not None else rand_gtable(rng, case))
     machine = make_machine(case, rec, gt, **(machine_kw or {}))
     run = {"rec": rec, "machine": machine, "gtable": gt, "engine": "pure", "events": [],
            "case": case}
@@ -198,7 +209,10 @@ def run_pure(case: gen.Case, nevents: int, rng: random.Random, on_step: Callable
         return run
     n = len(events) if events is not None else nevents
     for i in range(n):
-        if flip_guards and gtable is None:
+        if gtables is not None:
+            gt.clear()
+            gt.update(gtables[i + 1])
+        elif flip_guards and gtable is None:
             gt.update(rand_gtable(rng, case))
         ev = events[i] if events is not None else pick_event(rng, case, snap.configuration, i)
         run["events"].append(ev)
